@@ -44,6 +44,7 @@ type svcSpec struct {
 	res                    int
 	attr                   string
 	aliases                [][2]string // (namespace, hostname)
+	externalName           string      // non-empty: a Kubernetes ExternalName service (Resolution Alias) for that hostname
 }
 
 type destSpec struct {
@@ -308,8 +309,12 @@ func (s svcSpec) line() []string {
 	if s.k8s {
 		reg = "k"
 	}
-	return []string{"svc", wire.Enc(s.id), wire.Enc(s.hostname), wire.Enc(s.ns), reg, strconv.Itoa(s.ctime), wire.Enc(s.name),
+	out := []string{"svc", wire.Enc(s.id), wire.Enc(s.hostname), wire.Enc(s.ns), reg, strconv.Itoa(s.ctime), wire.Enc(s.name),
 		encPorts(s.ports), encItems(s.exportTo, ","), s.vis, strconv.Itoa(s.res), wire.Enc(s.attr), encAliases(s.aliases)}
+	if s.externalName != "" {
+		out = append(out, "x="+wire.Enc(s.externalName))
+	}
+	return out
 }
 
 func (v vsSpec) line() []string {
@@ -357,8 +362,12 @@ func (w *world) apply(t []string) bool {
 		w.mesh.defVS, w.mesh.nilVS = optList(t[3])
 		w.mesh.defDR, w.mesh.nilDR = optList(t[4])
 		w.mesh.apply = t[5] == "1"
-	case t[0] == "svc" && len(t) == 13:
-		w.svcs = append(w.svcs, svcSpec{id: wire.Dec(t[1]), hostname: wire.Dec(t[2]), ns: wire.Dec(t[3]), k8s: t[4] == "k",
+	case t[0] == "svc" && (len(t) == 13 || (len(t) == 14 && strings.HasPrefix(t[13], "x="))):
+		ext := ""
+		if len(t) == 14 {
+			ext = wire.Dec(t[13][2:])
+		}
+		w.svcs = append(w.svcs, svcSpec{externalName: ext, id: wire.Dec(t[1]), hostname: wire.Dec(t[2]), ns: wire.Dec(t[3]), k8s: t[4] == "k",
 			ctime: atoi(t[5]), name: wire.Dec(t[6]), ports: decPorts(t[7]), exportTo: decItems(t[8], ","), vis: t[9],
 			res: atoi(t[10]), attr: wire.Dec(t[11]), aliases: decAliases(t[12])})
 	case t[0] == "vs" && len(t) == 10:
@@ -404,6 +413,10 @@ func (s *svcSpec) real() *model.Service {
 		},
 	}
 	out.Attributes.K8sAttributes.ObjectName = s.id
+	if s.externalName != "" {
+		out.Resolution = model.Alias
+		out.Attributes.K8sAttributes.ExternalName = s.externalName
+	}
 	if s.attr != "" {
 		out.Attributes.Labels = map[string]string{"attr": s.attr}
 	}
